@@ -20,6 +20,8 @@
 -/
 import BumpverVerif.Model.V2Version
 import BumpverVerif.Model.Pep440
+import BumpverVerif.Model.PepTree
+import BumpverVerif.Proofs.PepTreeLemmas
 namespace BV
 
 private def S (s : String) : Str := s.toList
@@ -107,6 +109,185 @@ theorem C15_readme_shape :
     glues two numeric parts together -/
 theorem C15_odd_shape_witness :
     convertToPep440 (S "YYYY.MM-INC0") = S "YYYY.MMINC0[PYTAGNUM]" := by
+  decide +kernel
+
+/-! ## The derived pattern on the pattern TREE
+
+  `Pat.toPep` (Model/PepTree.lean) is `_convert_to_pep440` on the tree of Model/PatAst.lean, step by step.  The
+  string conversion above stays the reference (it is tied to the Python by the correspondence tests); `pepTie`
+  says that both agree on a pattern.  It is PROVED here for the README's patterns and is a Bool the driver can
+  evaluate for every generated pattern.  On the tree the round-trip theorems of C02 apply to the derived
+  pattern. -/
+
+set_option maxRecDepth 100000 in
+/-- THE TIE for the README's patterns: the string surgery's result tokenises to exactly the tree conversion of
+    the pattern's tree -/
+theorem C15_readme_tree_tie :
+    readmeConversions.all (fun pq => pepTie pq.1.toList) = true := by
+  decide +kernel
+
+/-- "IS ACCEPTED BY THE DERIVED SEARCH PATTERN", on the tree: the text rendered through the derived pattern
+    `p.toPep` is matched IN FULL by the regex compiled from `p.toPep`, its named groups are exactly the rendered
+    part texts, it reads back with every part equal, and rendering what was read reproduces it.  This is the
+    round trip of C02 (`compose_match`, `roundtrip_ast`) at the derived tree; the hypotheses are about the
+    derived tree — `C15_vok_transfer` and `C15_readme_derived_wf` discharge them from the original pattern. -/
+theorem C15_derived_accepts_own_rendering (p : Pat) (v : VInfo) (r : Re) (today : Nat × Nat × Nat)
+    (hwf : Pat.wfTop p.toPep = true) (hv : Pat.vok v p.toPep = true) (htc : tagCoh v = true)
+    (hc : CalReadsBack p.toPep v today) (hr : Pat.compile p.toPep = some r) :
+    reMatch r (Pat.render v p.toPep) =
+      some { start := 0, stop := (Pat.render v p.toPep).length, caps := (Pat.caps v p.toPep).reverse } ∧
+    ∃ v', parseWithRe r (Pat.render v p.toPep) today = .ok v' ∧ Pat.agree v v' p.toPep = true ∧
+      Pat.render v' p.toPep = Pat.render v p.toPep := by
+  have hwf' : Pat.wf p.toPep FSet.endOnly = true := by
+    simp only [Pat.wfTop, Bool.and_eq_true] at hwf; exact hwf.1
+  exact ⟨compose_match v p.toPep r hwf' hv hr, roundtrip_ast p.toPep v r today hwf hv htc hc hr⟩
+
+/-- THE TRANSFER of the record-level hypothesis from the ORIGINAL pattern to the derived one.  `pepReady v`
+    (Model/PepTree.lean) is what the substitutions need:
+      * BUILD -> BLD          : the BUILD value is a NON-ZERO number (BLD is `[1-9][0-9]*`, rendered `str(int(v))`);
+      * 0M 0D 00J 0W 0U 0V    : nothing (same field, same domain);
+      * TAG -> PYTAG          : `pytag` is the image of `tag` under PEP440_TAG_BY_TAG (then TAG and PYTAG are zero
+                                for the same records), and the release is NOT FINAL wherever the tag is rendered;
+      * the appended `[PYTAGNUM]` : `tag` is a CLI release tag, and a final release has release number 0.
+    `Pat.tagGuarded p`: every TAG of the pattern sits in an optional group made of tag / number parts only
+    (`[-TAG]`, `[-TAGNUM]`), so that it is not rendered for a final release.  Without it the statement is FALSE:
+    `C15_mandatory_tag_witness`. -/
+theorem C15_vok_transfer (p : Pat) (v : VInfo) (hv : Pat.vok v p = true) (hr : pepReady v = true)
+    (hg : Pat.tagGuarded p = true) : Pat.vok v p.toPep = true :=
+  vok_toPep_guarded p v hv ((pepReady_iff v).1 hr) hg
+
+/-- … for ANY pattern tree when the release is not final -/
+theorem C15_vok_transfer_nonfinal (p : Pat) (v : VInfo) (hv : Pat.vok v p = true) (hr : pepReady v = true)
+    (hnf : v.tag ≠ "final".toList) : Pat.vok v p.toPep = true :=
+  vok_toPep_nonfinal p v hv ((pepReady_iff v).1 hr) hnf
+
+/-- … for ANY pattern tree when the release tail is RELOCATED (no `PYTAGNUM` after the substitutions: all PYTAG
+    and NUM parts are removed, empty groups dropped once, `[PYTAGNUM]` appended) -/
+theorem C15_vok_transfer_relocated (p : Pat) (v : VInfo) (hv : Pat.vok v p = true) (hr : pepReady v = true)
+    (hn : p.toPepPre.hasPytagNum = false) : Pat.vok v p.toPep = true :=
+  vok_toPep_relocated p v hv ((pepReady_iff v).1 hr) hn
+
+/-- `pepReady` contains the tag coherence the round trip needs -/
+theorem C15_pepReady_tagCoh (v : VInfo) (hr : pepReady v = true) : tagCoh v = true :=
+  tagCoh_of_pepReady v hr
+
+/-- THE COMPOSITION, from hypotheses on the ORIGINAL pattern and record (plus the two static checks of the
+    derived tree that `C15_readme_derived_wf` evaluates): for every version state whose calendar is
+    `cal_info(date)` — what a bump produces — the `{pep440_version}` text is accepted in full by the derived
+    pattern and reads back with every part equal. -/
+theorem C15_derived_accepts_of_original (p : Pat) (v : VInfo) (r : Re) (today : Nat × Nat × Nat) (y m d : Nat)
+    (hd : validDate y m d = true) (hcal : v.cal = (calInfo y m d).toOpt)
+    (hv : Pat.vok v p = true) (hready : pepReady v = true) (hg : Pat.tagGuarded p = true)
+    (hwf : Pat.wfTop p.toPep = true) (ha : Pat.calAnchored p.toPep = true) (hr : Pat.compile p.toPep = some r) :
+    reMatch r (Pat.render v p.toPep) =
+      some { start := 0, stop := (Pat.render v p.toPep).length, caps := (Pat.caps v p.toPep).reverse } ∧
+    ∃ v', parseWithRe r (Pat.render v p.toPep) today = .ok v' ∧ Pat.agree v v' p.toPep = true ∧
+      Pat.render v' p.toPep = Pat.render v p.toPep := by
+  have hv' := C15_vok_transfer p v hv hready hg
+  exact C15_derived_accepts_own_rendering p v r today hwf hv' (tagCoh_of_pepReady v hready)
+    (calReadsBack_of_date p.toPep v today y m d hd hcal hwf hv' ha) hr
+
+set_option maxRecDepth 100000 in
+/-- NON-VACUITY and scope: for every README pattern the derived tree is `wfTop`, `calAnchored`, compiles, and
+    the pattern is `tagGuarded` — the static hypotheses of `C15_derived_accepts_of_original` -/
+theorem C15_readme_derived_wf :
+    readmeConversions.all (fun pq => match tokenize pq.1.toList with
+      | some p => p.toPep.wfTop && p.toPep.calAnchored && p.toPep.compile.isSome && p.tagGuarded
+      | none => false) = true := by
+  decide +kernel
+
+/-- a concrete record in the domain: 2024-03-09, BUILD 0013, beta 4 under `vYYYY0M.BUILD[-TAG]` renders through
+    the derived tree as `202403.13b4` (hypotheses satisfiable) -/
+example :
+    let v : VInfo := { cal := (calInfo 2024 3 9).toOpt, major := 0, minor := 0, patch := 0, bid := "0013".toList,
+                       tag := "beta".toList, pytag := "b".toList, num := 4, inc0 := 0, inc1 := 1 }
+    (match tokenize "vYYYY0M.BUILD[-TAG]".toList with
+     | some p => p.vok v && pepReady v && p.tagGuarded && p.toPep.wfTop && p.toPep.calAnchored && p.toPep.vok v &&
+                 (p.toPep.render v == "202403.13b4".toList)
+     | none => false) = true := by
+  decide +kernel
+
+set_option maxRecDepth 100000 in
+/-- WITNESS (why `tagGuarded`): `MAJOR.MINOR.PATCH-TAGNUM` has a MANDATORY tag.  For the final release 1.2.3 the
+    version text is "1.2.3-final0"; the derived pattern `MAJOR.MINOR.PATCHPYTAGNUM` is well-formed, the record is
+    in the domain of the original pattern and `pepReady`, but NOT in the domain of the derived pattern: it
+    renders "1.2.30" (empty PYTAG, the 0 of NUM glued to the patch number), which the derived pattern does not
+    match at all (PYTAG `dev|post|rc|a|b` cannot be empty). -/
+theorem C15_mandatory_tag_witness :
+    let v : VInfo := { cal := (calInfo 2024 3 9).toOpt, major := 1, minor := 2, patch := 3, bid := "1001".toList,
+                       tag := "final".toList, pytag := [], num := 0, inc0 := 0, inc1 := 1 }
+    (match tokenize "MAJOR.MINOR.PATCH-TAGNUM".toList with
+     | some p => p.vok v && pepReady v && !p.tagGuarded && p.toPep.wfTop && !p.toPep.vok v &&
+                 (p.toPep.render v == "1.2.30".toList) &&
+                 (match p.toPep.compile with
+                  | some r => (reMatch r (p.toPep.render v)).isNone
+                  | none => false)
+     | none => false) = true := by
+  decide +kernel
+
+set_option maxRecDepth 100000 in
+/-- WITNESSES (why `pepReady`): (1) a final release with a release number — `vYYYY.BUILD[-TAG][+NUM]`, "v2024.1001+5":
+    the relocated `[PYTAGNUM]` renders the 5 without a tag, glued to the BUILD number: "2024.10015" (which the
+    derived pattern even accepts — as BUILD 10015); (2) BUILD "0000" becomes BLD "0", which `[1-9][0-9]*` rejects. -/
+theorem C15_pepReady_witnesses :
+    let v1 : VInfo := { cal := (calInfo 2024 3 9).toOpt, major := 0, minor := 0, patch := 0, bid := "1001".toList,
+                        tag := "final".toList, pytag := [], num := 5, inc0 := 0, inc1 := 1 }
+    let v2 : VInfo := { v1 with bid := "0000".toList, num := 0 }
+    (match tokenize "vYYYY.BUILD[-TAG][+NUM]".toList with
+     | some p => p.vok v1 && !pepReady v1 && !p.toPep.vok v1 && (p.toPep.render v1 == "2024.10015".toList) &&
+                 p.vok v2 && !pepReady v2 && !p.toPep.vok v2 && (p.toPep.render v2 == "2024.0".toList) &&
+                 (match p.toPep.compile with
+                  | some r => (reMatch r (p.toPep.render v2)).isNone
+                  | none => false)
+     | none => false) = true := by
+  decide +kernel
+
+/-! ### the normal form of the rendering -/
+
+/-- EVERY derived pattern carries the release tail in the form `PYTAGNUM` (short tag directly followed by its
+    number) — for all trees, not only the README's -/
+theorem C15_derived_has_pytagnum (p : Pat) : p.toPep.hasPytagNum = true :=
+  hasPytagNum_toPep p
+
+/-- THE NORMAL FORM, structurally.  `Pat.pepNormal q`: no literal `v` at the start; every part AFTER THE FIRST
+    DOT-SEPARATED COMPONENT (`q.afterHead`: from the first top-level `.` or optional group on) is unpadded
+    (`str(v)` of a number or `str(int(v))`; not the verbatim BUILD string, not the long tag); no TAG part; every
+    PYTAG part is directly followed by NUM.  (The first component is exempt as in the property's text: the
+    README's `YYYY0M.BLD[PYTAGNUM]` keeps the padded month inside the first component `202403`.)
+    For such a tree and every record in the domain:
+      (1) text and captures split into the first component (no `.`, no group) and the rest;
+      (2) every part text of the rest is the short tag or `str(n)` for the number `n` of its field (for BLD: the
+          number the BUILD string denotes) — hence digits without a leading zero unless it is "0";
+      (3) no long tag anywhere, every rendered tag is one of a, b, rc, post, dev;
+      (4) every rendered tag is directly followed by the release number `str(num)`. -/
+theorem C15_normal_form_parts (q : Pat) (v : VInfo) (hn : Pat.pepNormal q = true) (hv : Pat.vok v q = true) :
+    (Pat.render v q = Pat.render v q.headComp ++ Pat.render v q.afterHead ∧
+     Pat.caps v q = Pat.caps v q.headComp ++ Pat.caps v q.afterHead ∧ Pat.flatNoDot q.headComp = true) ∧
+    (∀ ft, ft ∈ Pat.caps v q.afterHead →
+      (ft.1 = "pytag".toList ∧ ft.2 ∈ pepShortTags) ∨
+      (∃ n, ft.2 = natToStr n ∧ (v.get ft.1 = .nat n ∨ (ft.1 = "bid".toList ∧ n = strToNat v.bid)) ∧
+        allDigits ft.2 = true ∧ (ft.2 = "0".toList ∨ ∀ c t, ft.2 = c :: t → c ≠ '0'))) ∧
+    (∀ ft, ft ∈ Pat.caps v q → ft.1 ≠ "tag".toList ∧ (ft.1 = "pytag".toList → ft.2 ∈ pepShortTags)) ∧
+    (∀ l1 t l2, Pat.caps v q = l1 ++ ("pytag".toList, t) :: l2 →
+      ∃ l3, l2 = ("num".toList, natToStr v.num) :: l3) := by
+  simp only [Pat.pepNormal, Bool.and_eq_true] at hn
+  obtain ⟨⟨⟨_, hN⟩, hT⟩, hP⟩ := hn
+  refine ⟨⟨render_head_after v q, caps_head_after v q, headComp_flatNoDot q⟩, ?_, caps_tags v q hT hv, ?_⟩
+  · intro ft hm
+    rcases caps_all_normal v q.afterHead hN (vok_afterHead v q hv) ft hm with h | ⟨n, h1, h2⟩
+    · exact Or.inl h
+    · refine Or.inr ⟨n, h1, h2, ?_, ?_⟩
+      · rw [h1]; exact allDigits_natToStr n
+      · rw [h1]; exact natToStr_no_leading_zero n
+  · intro l1 t l2 e
+    exact capsNumbered_split v _ l1 t l2 (caps_numbered v q hP) e
+
+set_option maxRecDepth 100000 in
+/-- the derived tree of every README pattern is in normal form -/
+theorem C15_readme_derived_normal :
+    readmeConversions.all (fun pq => match tokenize pq.1.toList with
+      | some p => p.toPep.pepNormal
+      | none => false) = true := by
   decide +kernel
 
 end BV
